@@ -109,11 +109,6 @@ def Node.setOwn (o' : Own) : Node → Node
   | .fn _ fid => .fn o' fid
   | .comp _ k l ks => .comp o' k l ks
 
-/-- the node with its input values replaced (a fetch that is not followed by a run) -/
-def Node.withIns (i : List Val) : Node → Node
-  | .fn o fid => .fn { o with ins := i } fid
-  | .comp o k l ks => .comp { o with ins := i } k l ks
-
 def Node.isComp : Node → Bool
   | .fn _ _ => false
   | .comp _ _ _ _ => true
@@ -178,6 +173,18 @@ def pushed (pins : List Val) (links : List (Option Ref)) (p : Nat) (o : Own) : L
 def pushAll (pins : List Val) (links : List (Option Ref)) (p : Nat) (o : Own) : Nat → List Val → List Val
   | 0, ins => ins
   | k + 1, ins => pushed pins links p o (pushAll pins links p o k ins) k
+
+mutual
+/-- the node with its input values replaced (a fetch that is not followed by a run): every assignment is
+forwarded through the value links at once, all the way down -/
+def setIns (i : List Val) : Node → Node
+  | .fn o fid => .fn { o with ins := i } fid
+  | .comp o k links kids => .comp { o with ins := i } k links (pushKids i links 0 kids)
+/-- the children of a composite after its inputs `pins` were assigned -/
+def pushKids (pins : List Val) (links : List (Option Ref)) (p : Nat) : List Node → List Node
+  | [] => []
+  | n :: ns => setIns (pushAll pins links p n.own links.length n.own.ins) n :: pushKids pins links (p + 1) ns
+end
 
 /-- `inputs.fetch()`: a connected slot takes the upstream output if it holds data -/
 def fetchSlots (st : KS) : List (Option Ref) → List Val → List Val
@@ -255,7 +262,8 @@ merged a by-value child cannot be sent back. -/
 def mergeOrFail (cfg : Cfg) (o : Own) (k : CK) (links : List (Option Ref)) (kids : List Node)
     (rins : List Val) (rout : Val) (st : KS) : Node :=
   if st.err || (!cfg.keepIO && !huskFreeKids st.pre) then
-    .comp { o with failed := true, running := false } k links kids
+    -- the local children only saw the inputs that were forwarded to them before the submission
+    .comp { o with failed := true, running := false } k links (pushKids o.ins links 0 kids)
   else mergeBack cfg o k links rins (st.out.getD rout) (rewireAll st.bumps st.pre)
 
 /-- bookkeeping after one child of a running composite was handled -/
@@ -286,8 +294,8 @@ def runKids (cfg : Cfg) (fails : Nat → Bool) (mode : Mode) (pins : List Val) (
   | [] => st
   | n :: rest =>
     match prep pins links st n.own with
-    | .skip i => runKids cfg fails mode pins links (st.push n (n.withIns i) false false) rest
-    | .refuse i => runKids cfg fails mode pins links (st.push n (n.withIns i) false true) rest
+    | .skip i => runKids cfg fails mode pins links (st.push n (setIns i n) false false) rest
+    | .refuse i => runKids cfg fails mode pins links (st.push n (setIns i n) false true) rest
     | .go i =>
       let n' := run cfg fails mode i n
       runKids cfg fails mode pins links (st.push n n' (!n'.own.failed) n'.own.failed) rest
